@@ -125,6 +125,8 @@ class ProducerScenario:
                 tm._sequence_numbers[TopicPartition("t", part)] = s0
                 self.cluster.seed_producer_state("t", part, tm.producer_id, tm.producer_epoch, s0 - 1)
         self.s0 = s0
+        if p.get("mode_now"):
+            self.set_mode(tuple(p["mode_now"]))  # cluster mode in force from the first send on (C19)
         tasks = [world.spawn("p", self.sender, i, prog) for i, prog in enumerate(p["program"])]
         extra = []
         if p.get("flush_gate"):
